@@ -438,32 +438,48 @@ func ruleOfferPredicates(c *Ctx, rule string) {
 		c.unresolvedRoot("(*Conn).availableCaps")
 		return
 	}
-	gf := gateFlow(ac, facts{})
 	seen := map[string]bool{}
-	allInstrs(ac, func(i ssa.Instruction) {
-		for _, op := range i.Operands(nil) {
-			k, ok := (*op).(*ssa.Const)
-			if !ok || k.Value == nil || k.Value.Kind() != constant.String {
-				continue
-			}
-			s := constant.StringVal(k.Value)
-			fs, _ := gf.at(i)
-			switch {
-			case s == "AUTH=":
-				seen["AUTH="] = true
-				c.check(fs.has("ok:(*Conn).canAuth"), rule, "availableCaps: AUTH= mechanisms", i.Pos(), "advertised only on the true edge of canAuth()", "authentication mechanisms are advertised where canAuth() is false: the server offers credentials exchange on a link where it must refuse it")
-			case s == "LOGINDISABLED":
-				seen["LOGINDISABLED"] = true
-				c.check(fs.has("fail:(*Conn).canAuth"), rule, "availableCaps: LOGINDISABLED", i.Pos(), "advertised only on the false edge of canAuth()", "LOGINDISABLED is not tied to canAuth() being false")
-			case s == "STARTTLS":
-				seen["STARTTLS"] = true
-				c.check(fs.has("ok:(*Conn).canStartTLS"), rule, "availableCaps: STARTTLS", i.Pos(), "advertised only on the true edge of canStartTLS()", "STARTTLS is advertised where canStartTLS() is false")
-			}
+	for _, hf := range helperClosure(ac, 2) {
+		hf := hf
+		gf := gateFlow(hf, facts{})
+		if hf.Parent() != nil {
+			gf = nil
 		}
-	})
+		df := deepFlowOf(hf)
+		allInstrs(hf, func(i ssa.Instruction) {
+			for _, op := range i.Operands(nil) {
+				k, ok := (*op).(*ssa.Const)
+				if !ok || k.Value == nil || k.Value.Kind() != constant.String {
+					continue
+				}
+				s := constant.StringVal(k.Value)
+				var fs facts
+				if gf != nil {
+					fs, _ = gf.at(i)
+				} else {
+					fs, _ = df.at(i)
+				}
+				if fs == nil {
+					fs = facts{}
+				}
+				where := fnKey(hf)
+				switch {
+				case s == "AUTH=":
+					seen["AUTH="] = true
+					c.check(fs.has("ok:(*Conn).canAuth"), rule, "availableCaps: AUTH= mechanisms", i.Pos(), "advertised only on the true edge of canAuth() (in "+where+")", "authentication mechanisms are advertised where canAuth() is false: the server offers credentials exchange on a link where it must refuse it")
+				case s == "LOGINDISABLED":
+					seen["LOGINDISABLED"] = true
+					c.check(fs.has("fail:(*Conn).canAuth"), rule, "availableCaps: LOGINDISABLED", i.Pos(), "advertised only on the false edge of canAuth() (in "+where+")", "LOGINDISABLED is not tied to canAuth() being false")
+				case s == "STARTTLS":
+					seen["STARTTLS"] = true
+					c.check(fs.has("ok:(*Conn).canStartTLS"), rule, "availableCaps: STARTTLS", i.Pos(), "advertised only on the true edge of canStartTLS() (in "+where+")", "STARTTLS is advertised where canStartTLS() is false")
+				}
+			}
+		})
+	}
 	for _, k := range []string{"AUTH=", "LOGINDISABLED", "STARTTLS"} {
 		if !seen[k] {
-			c.fail(rule, "availableCaps: "+k, ac.Pos(), k+" is no longer emitted by availableCaps")
+			c.unresolvedRoot("the capability string " + k + " in availableCaps and its helpers")
 		}
 	}
 	// canStartTLS truth table
